@@ -31,7 +31,7 @@ Let o := observe s.
 Ltac obs_simpl :=
   unfold o, observe;
   cbn [o_ncol o_nech o_nact o_active o_names o_uid2col o_alluids o_col2uid o_colloc o_loccols o_cols o_cols_uid
-       o_cols_name o_cols_loc o_name2col o_name2uid].
+       o_cols_name o_cols_loc o_name2col o_name2uid o_cols_sel o_cols_selc].
 
 Lemma obs_names : chk_names o = true.
 Proof. unfold chk_names. obs_simpl. apply nodup_names_spec. apply HI. Qed.
@@ -178,9 +178,52 @@ Proof.
   rewrite (list_eqb_refl val_eqb _ val_eqb_refl). apply orb_true_r.
 Qed.
 
+(* cells read through the selection: as many as there are active samples (one rule: defined and not 0) *)
+Lemma length_flat_map_filter {A B} (P : A -> bool) (g : A -> B) l :
+  length (flat_map (fun e => if P e then [g e] else []) l) = length (filter P l).
+Proof. induction l as [|x l IH]; simpl; auto. destruct (P x); simpl; auto. Qed.
+Lemma length_flat_map_one {A B} (f : A -> list B) l : (forall x, length (f x) = 1) -> length (flat_map f l) = length l.
+Proof. intro H. induction l as [|x l IH]; simpl; auto. rewrite app_length, H, IH. reflexivity. Qed.
+Lemma obs_selcols : chk_selcols o = true.
+Proof.
+  unfold chk_selcols. obs_simpl. apply andb_true_iff. split.
+  - apply forallb_forall. intros col Hin. apply in_map_iff in Hin. destruct Hin as [c [<- Hc]].
+    apply in_seq in Hc. apply Nat.eqb_eq. unfold column_sel.
+    replace (c <? ncol s) with true by (symmetry; apply Nat.ltb_lt; lia).
+    rewrite active_count. unfold selections.
+    destruct (loc s SEL) as [|u0 l0] eqn:El.
+    + (* no selection *)
+      rewrite length_flat_map_one by (intro; reflexivity). rewrite seq_length.
+      assert (F : filter (is_active s) (seq 0 (nech s)) = seq 0 (nech s)).
+      { rewrite <- (app_nil_r (seq 0 (nech s))) at 2. induction (seq 0 (nech s)); simpl; auto.
+        unfold is_active at 1. rewrite El. now rewrite IHl, app_nil_r. }
+      now rewrite F, seq_length.
+    + assert (Hk : 0 < length (loc s SEL)) by (rewrite El; simpl; lia).
+      assert (Ht : SEL < NLOC) by (unfold SEL, NLOC; lia).
+      destruct (role_entry SEL 0 Ht Hk) as [u [c0 [E1 [E2 [E3 [E4 E5]]]]]].
+      rewrite E4. replace (c0 <? ncol s) with true by (symmetry; now apply Nat.ltb_lt).
+      destruct (nech s) as [|n] eqn:En; [reflexivity|].
+      set (sel := map (fun e => nth e (nth c0 (arr s) []) None) (seq 0 (S n))).
+      assert (Hs : exists x r, sel = x :: r) by (unfold sel; simpl; eauto).
+      destruct Hs as [x [r Hs]].
+      transitivity (length (flat_map (fun e => if sel_on (nth e sel None) then [nth e (nth c (arr s) []) None] else [])
+                                     (seq 0 (S n)))).
+      { apply (f_equal (@length val)). apply flat_map_ext. intro e. rewrite Hs. reflexivity. }
+      rewrite length_flat_map_filter. f_equal. apply filter_ext_in. intros e He. apply in_seq in He.
+      unfold sel. rewrite nth_map_seq by lia.
+      assert (Hsv : sel_value s e = nth e (nth c0 (arr s) []) None).
+      { unfold sel_value. rewrite E4. now replace (c0 <? ncol s) with true by (symmetry; now apply Nat.ltb_lt). }
+      unfold is_active. rewrite El, Hsv. unfold sel_on. reflexivity.
+  - apply forallb_forall. intros col Hin. apply in_map_iff in Hin. destruct Hin as [c [<- Hc]].
+    apply in_seq in Hc. apply Nat.eqb_eq. unfold column_sel.
+    replace (c <? ncol s) with true by (symmetry; apply Nat.ltb_lt; lia).
+    rewrite length_flat_map_one, seq_length; auto.
+    intro e. destruct (match selections s with [] => true | _ => sel_on (nth e (selections s) None) end); reflexivity.
+Qed.
+
 Lemma obs_sound : check_obs (observe s) = 0%Z.
 Proof.
   unfold check_obs. fold o.
-  now rewrite obs_names, obs_sizes, obs_uid, obs_byname, obs_roles, obs_rolecount, obs_active, obs_cols.
+  now rewrite obs_names, obs_sizes, obs_uid, obs_byname, obs_roles, obs_rolecount, obs_active, obs_cols, obs_selcols.
 Qed.
 End Obs.
